@@ -113,7 +113,7 @@ def _tiers(tier):
         for role in ("server", "client"):
             T.append(("tp=tls,role=%s,fam=frames,nfull=6,maxframes=2,big=1,prefix=60000" % role, 7.5))
             T.append(("tp=utls,role=%s,fam=frames,nfull=4,maxframes=2,big=1,cuts=0,prefix=60000" % role, 7.5))
-            T.append(("tp=tcp,role=%s,fam=frames,nfull=10,maxframes=2,big=1,prefix=60000" % role, 0.6))
+            T.append(("tp=tcp,role=%s,fam=frames,nfull=8,maxframes=2,big=1,prefix=60000" % role, 1.5))
     return T
 
 
@@ -168,7 +168,7 @@ def run(chk, tier, jobs, deadline):
 def _run(chk, tier, jobs, deadline, exe, canon):
     env = _env()
     envs = "ASAN_OPTIONS='%s' UBSAN_OPTIONS='%s' " % (env["ASAN_OPTIONS"], env["UBSAN_OPTIONS"])
-    dl = deadline or (110 if tier == "quick" else 1700)
+    dl = deadline or (420 if tier == "quick" else 1700)
     t_end = time.time() + dl
     certs = ",certs=" + msgfamily.PKI
     cfgs = [(c + (certs if ("tls" in c) else ""), w) for c, w in _tiers(tier)]
